@@ -57,6 +57,7 @@ PROPS["C02"] = {
         plain("regress", "rtpconn", "TestVerif_C02_Regress_.*"),
         rapid("write-composition", "rtpconn", "TestVerif_C02_WriteComposition", 800, 6000),
         rapid("rewrite-diff", "rtpconn", "TestVerif_C02_RewriteDiff", 8000, 60000),
+        rapid("concurrent-receivers", "rtpconn", "TestVerif_C02_ConcurrentReceivers", 400, 3000),
     ],
     "assumptions": ["source packets carry no RTP header extension (the receive loop strips them before caching)",
                     "picture-id continuity is asserted on in-order histories only, as the statement quantifies"],
